@@ -119,6 +119,8 @@ pub enum Op {
     Env(EnvOp),
     Inst(Inst),
     Reset,
+    Save,
+    Restore,
 }
 
 // ------------------------------------------------------------------ printing
@@ -328,6 +330,8 @@ impl Op {
                 ),
             },
             Op::Reset => "reset".into(),
+            Op::Save => "save".into(),
+            Op::Restore => "restore".into(),
         }
     }
 }
@@ -506,6 +510,8 @@ pub fn parse_line(line: &str) -> Option<Op> {
         ["env", "legacy", u, b, a] => Some(Op::Env(EnvOp::Legacy(pn(u)?, pn(b)?, pn(a)?))),
         ["env", "unbondingtime", n] => Some(Op::Env(EnvOp::UnbondingTime(pn(n)?))),
         ["reset"] => Some(Op::Reset),
+        ["save"] => Some(Op::Save),
+        ["restore"] => Some(Op::Restore),
         ["inst", "hub", s, e, u, f, t, rd, up] => Some(Op::Inst(Inst::Hub {
             sender: pn(s)?,
             epoch: pn(e)?,
@@ -841,6 +847,7 @@ impl Chain {
                 *self = Chain::new();
                 Ok(())
             }
+            Op::Save | Op::Restore => Ok(()),
         };
         match r {
             Ok(()) => Outcome { ok: true, err: String::new() },
